@@ -493,6 +493,9 @@ class S:
 
 import operator as _op
 
+# code under check asks isinstance(value, numbers.Number) (ESFResult.apply_pdf, Kernel.__rmul__): proxies are numbers
+numbers.Number.register(S)
+
 _CMPW = {"<": _op.lt, "<=": _op.le, ">": _op.gt, ">=": _op.ge, "==": _op.eq, "!=": _op.ne}
 _CMPT = {
     "<": lambda a, b: a < b,
